@@ -933,9 +933,8 @@ class SimpleShape(DefinedShape):
             return False
         if areaA > 0:
             return True
-        # If simple shape is not a square
-        # may happens error here
-        return True
+        # Both are unbounded: other in self <=> (~self) in (~other)
+        return (~other).__contains_simple(~self)
 
 
 class ConnectedShape(DefinedShape):
